@@ -151,6 +151,9 @@ def root_var(e):
         if e[0] == "bin" and e[1] in ("+", "-"):
             e = strip(e[2])
             continue
+        if e[0] == "incdec":
+            e = strip(e[3])
+            continue
         return None
     return None
 
@@ -690,3 +693,167 @@ class Program(object):
         nb = sum(len(f.blocks) for f in self.all_fns)
         ne = sum(sum(len(b.elems) for b in f.blocks.values()) for f in self.all_fns)
         return {"units": len(self.units), "functions": len(self.all_fns), "cfg_blocks": nb, "elements": ne}
+
+
+# ---------------------------------------------------------------- pure expression evaluation (K6)
+
+class EvalError(Exception):
+    pass
+
+
+_UNSIGNED = {"ev_uint8_t": 8, "uint8_t": 8, "unsigned char": 8, "u_char": 8, "ev_uint16_t": 16, "uint16_t": 16, "unsigned short": 16,
+             "ev_uint32_t": 32, "uint32_t": 32, "unsigned int": 32, "unsigned": 32, "ev_uint64_t": 64, "uint64_t": 64,
+             "size_t": 64, "unsigned long": 64}
+_SIGNED = {"char": 8, "signed char": 8, "ev_int8_t": 8, "short": 16, "ev_int16_t": 16, "int": 32, "ev_int32_t": 32,
+           "ev_int64_t": 64, "long": 64, "ev_ssize_t": 64, "ssize_t": 64}
+
+
+def cast_int(ty, v):
+    ty = ty.replace("const ", "").strip()
+    if ty in _UNSIGNED:
+        return v & ((1 << _UNSIGNED[ty]) - 1)
+    if ty in _SIGNED:
+        b = _SIGNED[ty]
+        v &= (1 << b) - 1
+        return v - (1 << b) if v >> (b - 1) else v
+    return v
+
+
+def table_values(g):
+    """Integer values of a file-scope constant array initialiser (padded with the filler/zero)."""
+    init = g.get("init")
+    if not init or init[0] not in ("ainit", "str"):
+        raise AnalysisBroken("global %s has no array initialiser" % g["name"])
+    if init[0] == "str":
+        return [ord(c) for c in init[1]] + [0]
+    vals = []
+    for x in init[1]:
+        x = strip(x)
+        if x[0] != "int":
+            raise AnalysisBroken("global %s: non-constant element" % g["name"])
+        vals.append(x[1])
+    return vals
+
+
+def evalx(e, env, P=None):
+    """Evaluate a pure integer expression tree. Leaves are looked up in env by key(); constant global
+    arrays are read through P. Explicit casts to fixed-width integer types truncate/sign-wrap; otherwise
+    Python integers (unbounded) — callers mask where C width matters."""
+    if is_e(e, "cast"):
+        v = evalx(e[2], env, P)
+        return cast_int(e[1], v)
+    if is_e(e, "stmtexpr"):
+        return evalx(e[1], env, P)
+    k = key(e)
+    if k in env:
+        return env[k]
+    t = e[0]
+    if t == "int":
+        return e[1]
+    if t == "var" and e[1] in env:
+        return env[e[1]]
+    if t == "bin":
+        op = e[1]
+        if op == "&&":
+            return 1 if (evalx(e[2], env, P) and evalx(e[3], env, P)) else 0
+        if op == "||":
+            return 1 if (evalx(e[2], env, P) or evalx(e[3], env, P)) else 0
+        a, b = evalx(e[2], env, P), evalx(e[3], env, P)
+        if op == "&": return a & b
+        if op == "|": return a | b
+        if op == "^": return a ^ b
+        if op == "<<": return a << b
+        if op == ">>": return a >> b
+        if op == "+": return a + b
+        if op == "-": return a - b
+        if op == "*": return a * b
+        if op == "/":
+            if b == 0: raise EvalError("div0")
+            return int(a / b)
+        if op == "%":
+            if b == 0: raise EvalError("div0")
+            return a - int(a / b) * b
+        if op == "<": return int(a < b)
+        if op == "<=": return int(a <= b)
+        if op == ">": return int(a > b)
+        if op == ">=": return int(a >= b)
+        if op == "==": return int(a == b)
+        if op == "!=": return int(a != b)
+        raise EvalError("operator " + op)
+    if t == "un":
+        a = evalx(e[2], env, P)
+        if e[1] == "~": return ~a
+        if e[1] == "!": return int(not a)
+        if e[1] == "-": return -a
+        if e[1] == "+": return a
+        raise EvalError("unary " + e[1])
+    if t == "cond":
+        return evalx(e[2], env, P) if evalx(e[1], env, P) else evalx(e[3], env, P)
+    if t == "idx" and P is not None:
+        b = strip(e[1])
+        if is_e(b, "var") and b[2] in ("global", "lstatic"):
+            vals = table_values(P.global_(b[1]))
+            i = evalx(e[2], env, P)
+            if not (0 <= i < len(vals)):
+                raise EvalError("index %d out of table %s[%d]" % (i, b[1], len(vals)))
+            return vals[i]
+    raise EvalError("unsupported node %s in %s" % (t, show(e)))
+
+
+def compilex(e, argnames, P=None):
+    """Compile a pure integer expression tree into a Python function f(*args). `argnames` maps key(leaf) -> argument name.
+    Same semantics as evalx (unbounded ints, explicit casts truncate)."""
+    tabs = {}
+
+    def gen(e):
+        if is_e(e, "cast"):
+            ty = e[1].replace("const ", "").strip()
+            inner = gen(e[2])
+            if ty in _UNSIGNED:
+                return "((%s) & %d)" % (inner, (1 << _UNSIGNED[ty]) - 1)
+            if ty in _SIGNED:
+                b = _SIGNED[ty]
+                return "_sx(%s, %d)" % (inner, b)
+            return inner
+        if is_e(e, "stmtexpr"):
+            return gen(e[1])
+        k = key(e)
+        if k in argnames:
+            return argnames[k]
+        t = e[0]
+        if t == "int":
+            return "(%d)" % e[1]
+        if t == "bin":
+            op = e[1]
+            a, b = gen(e[2]), gen(e[3])
+            if op in ("&", "|", "^", "<<", ">>", "+", "-", "*"):
+                return "(%s %s %s)" % (a, op, b)
+            if op in ("<", "<=", ">", ">=", "==", "!="):
+                return "int(%s %s %s)" % (a, op, b)
+            if op == "&&":
+                return "int(bool(%s) and bool(%s))" % (a, b)
+            if op == "||":
+                return "int(bool(%s) or bool(%s))" % (a, b)
+            raise EvalError("operator " + op)
+        if t == "un":
+            a = gen(e[2])
+            if e[1] == "~": return "(~%s)" % a
+            if e[1] == "!": return "int(not %s)" % a
+            if e[1] == "-": return "(-%s)" % a
+            if e[1] == "+": return a
+            raise EvalError("unary " + e[1])
+        if t == "cond":
+            return "(%s if %s else %s)" % (gen(e[2]), gen(e[1]), gen(e[3]))
+        if t == "idx" and P is not None:
+            b = strip(e[1])
+            if is_e(b, "var") and b[2] in ("global", "lstatic"):
+                name = "_t_" + b[1]
+                tabs[name] = tuple(table_values(P.global_(b[1])))
+                return "%s[%s]" % (name, gen(e[2]))
+        raise EvalError("unsupported node %s in %s" % (t, show(e)))
+
+    src = gen(e)
+    names = sorted(set(argnames.values()))
+    env = dict(tabs)
+    env["_sx"] = lambda v, b: ((v & ((1 << b) - 1)) - (1 << b)) if (v >> (b - 1)) & 1 else (v & ((1 << b) - 1))
+    return eval("lambda %s: %s" % (", ".join(names), src), env), names
